@@ -21,8 +21,35 @@ def families(tier):
   return [('plugs', execlib.fam_plugs(tier)), ('plug-hang', fam_hang(tier))]
 
 
+def teardown_deadline(chk):
+  """two plugs whose tearDown returns at the very moment plug_teardown_timeout_s expires: whether the
+  manager sees them as finished or abandons them, "neither changes the test outcome nor prevents the other
+  plugs' tearDown".  Whole runs under the scheduler, every statement of threads.py a scheduling point, DFS
+  with one preemption (the c04 run harness)."""
+  import multiprocessing as mp
+  import sys
+  from checks import c04
+  sys.argv = sys.argv[:1]
+  from vf import build, explore  # noqa: F401
+  quick = chk.tier == 'quick'
+  roots = explore.split_roots(c04.make_run('plugedge', 'none', 0), 1, 6)
+  per = max(50, (4000 if quick else 40000) // max(1, len(roots)))
+  with mp.Pool(12, maxtasksperchild=8) as pool:
+    outs = pool.map(c04.explore_job, [('plugedge', 'none', 0, 1, r, per) for r in roots], chunksize=1)
+  n = 0
+  for o in outs:
+    n += o['n']
+    for sig, det in o['bad']:
+      chk.violation('tearDown returning as plug_teardown_timeout_s expires: ' + sig, det)
+  chk.traces += n
+  chk.nontrivial += n
+  chk.tlc_runs.append(dict(name='dfs plug tearDown finishing at its timeout', schedules=n))
+  chk.log('%d schedules of plug tearDown finishing at its timeout' % n)
+
+
 def main(chk):
   execlib.run_families(chk, families(chk.tier), OWNED, extra=dict(plug_timeout=True))
+  teardown_deadline(chk)
   # "tearDown ... before the output callbacks, whatever the outcome (... abort)": real threads, real SIGINT
   from checks import c09
   c09.real_sigint(chk, owned='plugs')
